@@ -312,7 +312,7 @@ def corruptions(root, doc, rng, limit):
 def run(ctx):
     import random
     styles = [("prefix", "xtce"), ("default",), ("none",)]
-    for i in range(ctx.size(64, 1500)):
+    for i in range(ctx.size(64, 900)):
         if not ctx.mine(i):
             continue
         rng = random.Random(f"C17/{ctx.seed}/{i}")
@@ -351,7 +351,7 @@ def run(ctx):
         old = sys.getrecursionlimit()
         try:
             sys.setrecursionlimit(1500)
-            for kind, elkind, referenced, expect, tree in corruptions(root, doc, rng, ctx.size(70, 400)):
+            for kind, elkind, referenced, expect, tree in corruptions(root, doc, rng, ctx.size(70, 300)):
                 xml = render.serialize(tree, style)
                 if ctx.counters["evaluations"] % 3 == 0:
                     # the corrupted document replaces the valid one ON DISK under the same path and is loaded by path
